@@ -1,6 +1,6 @@
-(* C07 — rprop_dense.go: what does hold (constraints, honest log, iteration cap, and a
-   weakened stop statement).  The full stop condition and the first hook call are
-   refuted in Refuted.v. *)
+(* C07 — rprop_dense.go at HEAD (after fix c65a3ee: copy(x1,x2) before the stop test, and
+   fix 8bc6fe7: the gradient is evaluated at x0 before the loop): full stop condition,
+   honest hook arguments (first call included), constraints, iteration cap. *)
 From Coq Require Import ZArith List Bool Lia.
 From ADV Require Import Base.Num C07.Model C07.Spec C07.ProofsBase.
 Import ListNotations.
@@ -14,20 +14,16 @@ Variable CS : nat -> list A -> bool.
 Variable P : rp_params (A := A).
 
 Notation wf := (wf F HK CS).
+Notation good := (good F HK CS).
 Notation trace := (trace (A := A)).
 Ltac nonconv := let x := fresh "x" in let X := fresh "X" in intros x X; discriminate X.
-
-(* some evaluated point passed the stop test (NOT necessarily the returned one) *)
-Definition some_point_passed (tr : trace) : Prop :=
-  exists x2 a, In (EvEval (QGrad x2) a) tr /\ a_err a = false /\
-               ltb NM (norm NM (a_g a)) (rp_eps P) = true.
 
 Definition dinner_post (tr : trace) (r : rp_inner_res (A := A)) : Prop :=
   match r with
   | RIFuel => True
-  | RINaN _ tr' | RIErr tr' => wf tr' /\ ext tr tr' /\ n_hooks tr' = n_hooks tr
+  | RINaN _ tr' | RIErr tr' => good tr' /\ ext tr tr' /\ n_hooks tr' = n_hooks tr
   | RIOk x2 a _ tr' =>
-      wf tr' /\ ext tr tr' /\ n_hooks tr' = n_hooks tr /\
+      good tr' /\ ext tr tr' /\ n_hooks tr' = n_hooks tr /\
       In (EvEval (QGrad x2) a) tr' /\ a_err a = false /\ accepted (rp_cons P) tr' x2
   end.
 
@@ -41,22 +37,22 @@ Proof.
 Qed.
 
 Lemma rpd_inner_ok fuel : forall x1 x2 g step tr,
-  wf tr -> dinner_post tr (rpd_inner NM F CS P fuel x1 x2 g step tr).
+  good tr -> dinner_post tr (rpd_inner NM F CS P fuel x1 x2 g step tr).
 Proof.
   induction fuel as [|f IH]; intros x1 x2 g step tr G; simpl; [exact I|].
   destruct (snd (rp_upd_x NM x1 x2 g step)).
   { simpl. ssplit; auto using ext_refl. }
   remember (fst (rp_upd_x NM x1 x2 g step)) as x2' eqn:Hx2.
   remember (F (length tr) (QGrad x2')) as a eqn:Ha.
-  assert (G1 : wf (EvEval (QGrad x2') a :: tr)) by (subst a; constructor; auto).
+  assert (G1 : good (EvEval (QGrad x2') a :: tr)) by (subst a; apply good_eval; auto).
   destruct (a_err a) eqn:Herr.
   { simpl. ssplit; [exact G1 | apply ext_step | reflexivity]. }
   destruct (any_nan NM (a_g a)).
   { apply dinner_post_weaken with (tr1 := EvEval (QGrad x2') a :: tr); [apply ext_step | reflexivity | apply IH; exact G1]. }
   destruct (rp_cons P) eqn:Hc.
   - remember (CS (S (length tr)) x2') as ok eqn:Hok.
-    assert (G2 : wf (EvCons x2' ok :: EvEval (QGrad x2') a :: tr))
-      by (subst ok; exact (wf_cons F HK CS (EvEval (QGrad x2') a :: tr) x2' G1)).
+    assert (G2 : good (EvCons x2' ok :: EvEval (QGrad x2') a :: tr))
+      by (subst ok; exact (good_cons F HK CS (EvEval (QGrad x2') a :: tr) x2' G1)).
     destruct ok.
     + simpl. rewrite Hc. ssplit; [exact G2 | apply ext_cons, ext_step | reflexivity | right; left; reflexivity | exact Herr | intros _; left; reflexivity].
     + apply dinner_post_weaken with (tr1 := EvCons x2' false :: EvEval (QGrad x2') a :: tr); [apply ext_cons, ext_step | reflexivity | apply IH; exact G2].
@@ -64,26 +60,29 @@ Proof.
 Qed.
 
 Definition rpd_post (n0 : nat) (i : Z) (o : outcome (A := A)) (tr : trace) : Prop :=
-  wf tr /\ point_accepted (rp_cons P) tr o /\
-  (forall x, o = Converged x -> some_point_passed tr) /\
+  good tr /\ point_accepted (rp_cons P) tr o /\
+  (forall x, o = Converged x -> stop_ok NM (rp_eps P) tr x) /\
   (n_hooks tr <= n0 + Z.to_nat (rp_maxit P - i))%nat.
 
+(* invariant: gnew is the logged gradient of the current point x1 *)
 Lemma rpd_loop_ok fuel : forall i x1 x2 gnew step tr,
-  wf tr -> accepted (rp_cons P) tr x1 ->
+  good tr -> accepted (rp_cons P) tr x1 ->
+  (exists a, In (EvEval (QGrad x1) a) tr /\ a_err a = false /\ gnew = a_g a) ->
   rpd_post (n_hooks tr) i (fst (rpd_loop NM F HK CS P fuel i x1 x2 gnew step tr))
                           (snd (rpd_loop NM F HK CS P fuel i x1 x2 gnew step tr)).
 Proof.
   unfold rpd_post.
-  induction fuel as [|f IH]; intros i x1 x2 gnew step tr G Hacc; simpl.
+  induction fuel as [|f IH]; intros i x1 x2 gnew step tr G Hacc Hg; simpl.
   { ssplit; [exact G | exact I | nonconv | lia]. }
   destruct (i <? rp_maxit P) eqn:Hi.
   2:{ simpl. ssplit; [exact G | exact Hacc | nonconv | lia]. }
   apply Z.ltb_lt in Hi.
   assert (Hz : Z.to_nat (rp_maxit P - i) = S (Z.to_nat (rp_maxit P - (i + 1)))) by lia.
   remember (mkHook x1 gnew None step) as h eqn:Hh.
+  assert (M : hook_matched tr h).
+  { destruct Hg as (a & Hin & He & Hga). exists a. subst h; simpl. ssplit; auto. }
   remember (if rp_hook P then EvHook h (if rp_hook P then HK (length tr) h else false) :: tr else tr) as tr1 eqn:Htr1.
-  assert (G1 : wf tr1).
-  { subst tr1. destruct (rp_hook P); [constructor|]; auto. }
+  assert (G1 : good tr1) by (subst tr1; apply good_opt_hook; auto).
   assert (E1 : ext tr tr1) by (subst tr1; apply ext_opt).
   assert (N1 : (n_hooks tr1 <= S (n_hooks tr))%nat).
   { subst tr1. destruct (rp_hook P); [rewrite n_hooks_hook|]; lia. }
@@ -98,9 +97,11 @@ Proof.
   - destruct IN as (G2 & E2 & N2). ssplit; [exact G2 | exact I | nonconv | lia].
   - destruct IN as (G2 & E2 & N2 & Hin2 & Herr2 & Hacc2).
     destruct (ltb NM (norm NM (a_g a)) (rp_eps P)) eqn:Hn; simpl.
-    + ssplit; [exact G2 | eapply accepted_ext; [eapply ext_trans; [exact E1 | exact E2] | exact Hacc] | | lia].
-      intros x X. exists x2', a. ssplit; auto.
-    + specialize (IH (i + 1) x2' x2' (a_g a) (rp_upd_step NM P gnew (a_g a) step') tr2 G2 Hacc2).
+    + ssplit; [exact G2 | exact Hacc2 | | lia].
+      intros x X. inversion X; subst x. exists a. ssplit; auto.
+    + assert (Hg2 : exists a', In (EvEval (QGrad x2') a') tr2 /\ a_err a' = false /\ a_g a = a_g a')
+        by (exists a; auto).
+      specialize (IH (i + 1) x2' x2' (a_g a) (rp_upd_step NM P gnew (a_g a) step') tr2 G2 Hacc2 Hg2).
       destruct IH as (W & PA & SP & NH). ssplit; [exact W | exact PA | exact SP | lia].
 Qed.
 
@@ -110,16 +111,27 @@ Proof.
   unfold rprop_dense.
   remember (if rp_cons P then CS 0 x0 else true) as ok eqn:Hok.
   remember (if rp_cons P then [EvCons x0 ok] else []) as tr0 eqn:Htr0.
-  assert (G0 : wf tr0).
-  { subst tr0. destruct (rp_cons P); [|constructor]. subst ok.
-    apply (wf_cons F HK CS [] x0). constructor. }
+  assert (G0 : good tr0).
+  { subst tr0. destruct (rp_cons P); [|apply good_nil]. subst ok.
+    apply (good_cons F HK CS [] x0). apply good_nil. }
   assert (Hacc : ok = true -> accepted (rp_cons P) tr0 x0).
   { unfold accepted. intros -> Hc. subst tr0. rewrite Hc. left; reflexivity. }
   assert (N0 : n_hooks tr0 = 0%nat) by (subst tr0; destruct (rp_cons P); reflexivity).
+  clear Htr0 Hok.
   destruct ok; cbn [negb fst snd].
   2:{ unfold rpd_post; ssplit; [exact G0 | exact I | nonconv | lia]. }
-  pose proof (rpd_loop_ok fuel 0 x0 x0 (repeat (one NM) (length x0)) (repeat (rp_step0 P) (length x0)) tr0 G0 (Hacc eq_refl)) as L.
-  rewrite N0 in L. exact L.
+  remember (F (length tr0) (QGrad x0)) as a eqn:Ha.
+  assert (G1 : good (EvEval (QGrad x0) a :: tr0)) by (subst a; apply good_eval; auto).
+  destruct (a_err a) eqn:He; cbn [fst snd].
+  { unfold rpd_post; ssplit; [exact G1 | exact I | nonconv | rewrite n_hooks_eval; lia]. }
+  destruct (any_nan NM (a_g a)); cbn [fst snd].
+  { unfold rpd_post; ssplit; [exact G1 | exact I | nonconv | rewrite n_hooks_eval; lia]. }
+  assert (Hacc1 : accepted (rp_cons P) (EvEval (QGrad x0) a :: tr0) x0)
+    by (eapply accepted_ext; [apply ext_step | exact (Hacc eq_refl)]).
+  assert (Hg : exists a', In (EvEval (QGrad x0) a') (EvEval (QGrad x0) a :: tr0) /\ a_err a' = false /\ a_g a = a_g a')
+    by (exists a; ssplit; auto; left; reflexivity).
+  pose proof (rpd_loop_ok fuel 0 x0 x0 (a_g a) (repeat (rp_step0 P) (length x0)) _ G1 Hacc1 Hg) as L.
+  rewrite n_hooks_eval, N0 in L. exact L.
 Qed.
 
 End Dense.
